@@ -15,7 +15,7 @@ var rpcCodes = []int{14, 14, 8, 13, 7, 3, 4, 2, 1, 5, 10, 16, 12}
 func genReply(r *sim.Rng) LReply {
 	switch r.Weighted([]int{50, 25, 6, 6, 13}) {
 	case 0:
-		rep := LReply{Kind: "ok", NCerts: pick(r, []int{1, 1, 1, 2, 3, 0}), Noise: r.Bool(0.2)}
+		rep := LReply{Kind: "ok", NCerts: pick(r, []int{1, 1, 1, 2, 3, 0, 1, 2, 16, 40}), Noise: r.Bool(0.2)}
 		for i := 0; i < rep.NCerts; i++ {
 			rep.Comments = append(rep.Comments, pick(r, []string{"", "touch", "c", "two words"}))
 		}
@@ -36,7 +36,7 @@ func genReply(r *sim.Rng) LReply {
 
 // addSigs lets a CA sign the certificates of one reply with different keys / signature formats.
 func addSigs(r *sim.Rng, rep *LReply) {
-	if rep.NCerts >= 2 && r.Bool(0.4) {
+	if rep.NCerts >= 2 && (r.Bool(0.4) || rep.NCerts > 8) {
 		for i := 0; i < rep.NCerts; i++ {
 			rep.CASigs = append(rep.CASigs, pick(r, []string{"", "rsa-sha1", "rsa-sha1", "rsa-sha2-256", "rsa-sha2-512", "ecdsa"}))
 		}
@@ -92,8 +92,8 @@ func genL(prop string) func(r *sim.Rng, tier string) any {
 			}
 			if r.Bool(impostorRate) {
 				e.Identity = pick(r, []string{"other_ca", "self_signed", "expired", "just_expired", "not_yet", "wrong_name", "client_ca"})
-				if i > 0 && r.Bool(0.15) {
-					e.Identity = "named_as_first"
+				if i > 0 && r.Bool(0.2) {
+					e.Identity = pick(r, []string{"named_as_first", "cert_of_first"})
 				}
 				if len(p.Cfg.Sibling) > 0 && r.Bool(0.5) {
 					e.Identity, e.CA = "sibling_ca", pick(r, p.Cfg.Sibling)
@@ -140,6 +140,12 @@ func genL(prop string) func(r *sim.Rng, tier string) any {
 					}
 				}
 			}
+		}
+		if prop == "C18" && r.Bool(0.1) {
+			// the RA's client certificate lapses between two Sign calls
+			p.Cfg.ClientExpires = true
+			p.Calls = 2
+			p.GapSec = 31 * 365 * 86400
 		}
 		if prop == "C17" {
 			for i := 0; i < r.Range(2, 8); i++ {
